@@ -9,7 +9,7 @@ from ..lib import coqrun, driver, env, proofs, report
 
 PROP = "C16"
 PROP_BITS = (1, 2, 3, 5, 6)      # clauses evaluated by verified checkers on implementation outputs
-CORR_BITS = (0, 4)               # model vs implementation (partial ids; strict/loose ids)
+CORR_BITS = (0, 4, 7)            # model vs implementation (partial ids; strict/loose ids; loaded source cells)
 CORPUS = os.path.join(env.VERIF, "corpus", "partial")
 
 
@@ -94,6 +94,15 @@ def main(tier, seed):
         "optional keywords post_processing, imap_mode, threshold, method, ref, idtype are OMITTED from the call, so the "
         "library's own defaults are exercised while the model holds the documented defaults (on, on, 0.45, 'sca', "
         "'partial_cognate_sets', 'strict'). "
+        "35%% of the random partial cases are HISTORIES: 1-2 earlier partial_cluster calls on the same Partial object "
+        "(copies of the last call with post_processing / imap_mode / threshold / linkage varied, or unchanged, each "
+        "writing its own column), every call compared with the model for its own parameters; every second exhaustive "
+        "case is preceded by the same call with post-processing flipped. 30%% of the partial cases are written to a TSV "
+        "file and loaded with Wordlist before Partial(wl); in half of the cases the segment cells are tuples, "
+        "lingpy.basictypes.lists objects, or lists objects built with other content and edited in place (insert of a "
+        "'+', extend, item assignment, del) into the intended tokens. Half of the derive cases read their source ids "
+        "from a file column (COGIDS, PARTIALIDS, PARTIAL_COGNATE_SETS and aliases) whose cells have irregular blanks "
+        "(doubled, tripled, leading, trailing, blank-only for the empty list); the model is given the ids as written. "
         "Non-trivial (partial) = the run returned and in some concept at least two morphemes share an id while at "
         "least two ids occur; (derive) = some concept has a loose component with more than one word and at least two "
         "components. Distinct by full input. Ids of the real stream are compared with the model only when the float "
@@ -113,7 +122,9 @@ def main(tier, seed):
         "reach the model as decimals",
         "modelled, not verified: _get_slices, _get_partial_matrices (both constructions), partial_cluster, "
         "add_cognate_ids; flat clustering through Cluster/Flat.v; networkx replaced by Cognates/Components.v",
-        "not modelled: cluster_method infomap/mcl/external_function, method='lexstat', split_on_tones=True"]
+        "not modelled: cluster_method infomap/mcl/external_function, method='lexstat', split_on_tones=True; the "
+        "wordlist reader and the wordlist.rc converters are exercised (file inputs) but not modelled: the model "
+        "receives the tokens / ids the harness wrote"]
     run.assumptions += [
         "the aligner is an arbitrary function of the two slices it is given (a universally quantified oracle in "
         "every theorem); the keys of the words of a concept are distinct",
